@@ -108,4 +108,12 @@ Definition dispatch (s : sexp) : sexp :=
     of_bool (forallb event_ok (sx_events (sx_arg 0 s)))
   else if t =? 15 then  (* issues status hdr *)
     of_opt of_str (issues (sx_Z (sx_arg 0 s)) (sx_opt sx_str (sx_arg 1 s)))
+  else if t =? 17 then  (* the spec's encoder with data-less events: ((noise ...) choice msg) ... ; noise = (0 name) | (1 comment) *)
+    of_str (sse_encode_noisy (map (fun e => (map (fun n => if sx_Z (sx_nth 0 n) =? 0 then NTyped (sx_str (sx_nth 1 n))
+                                                           else NCommentOnly (sx_str (sx_nth 1 n))) (sx_list (sx_nth 0 e)),
+                                             (sx_choice (sx_nth 1 e), sx_str (sx_nth 2 e)))) (sx_list (sx_arg 0 s))))
+  else if t =? 18 then
+    of_bool (forallb noisy_event_ok (map (fun e => (map (fun n => if sx_Z (sx_nth 0 n) =? 0 then NTyped (sx_str (sx_nth 1 n))
+                                                               else NCommentOnly (sx_str (sx_nth 1 n))) (sx_list (sx_nth 0 e)),
+                                                 (sx_choice (sx_nth 1 e), sx_str (sx_nth 2 e)))) (sx_list (sx_arg 0 s))))
   else At (-999).
